@@ -35,7 +35,9 @@ def run(ctx):
     combos = list(itertools.product(STYLES, [False, True], ["code", "docstring"], ["warn", "ignore"], [False, True]))
     runs = []
     for i in range(npk):
-        p = gen_pkg.gen_package(rng, i, style=STYLES[i % 4], doc_types=True, nmods=3)
+        p = gen_pkg.gen_package(rng, i, style=STYLES[i % 4], doc_types="rich", nmods=3)
+        # a parameter specification and a type variable tuple declared in the package (typed decorators)
+        p.modules[0].extra_source = gen_pkg.PARAMSPEC_SOURCE.replace("{k}", f"{i}q")
         files = gen_pkg.package_files(p)
         root = base / f"t{i}"
         implrun.write_tree(root, files)
